@@ -92,6 +92,11 @@ Result(r, p, al, be, h, in) ==
         \* Hermitian results: the diagonal is real by construction (El drops the imaginary
         \* part of the stored diagonal and the update term is real)
     IN
+    \* the one-vector Level 1 routines with a negative increment: "has no effect" (scal),
+    \* "returns 0" (asum), "returns -1" (iamax; documented for the complex routines)
+    IF r \in L1One /\ p.incx < 0
+    THEN (CASE r \in {"scal", "rscal"} -> [x |-> in.x] [] r = "asum" -> [ret |-> 0] [] r = "iamax" -> [ret |-> -1])
+    ELSE
     CASE r = "swap" -> [x |-> NewX(Y), y |-> NewY(X)]
       [] r = "copy" -> [y |-> NewY(X)]
       [] r = "axpy" -> [y |-> NewY(LAMBDA i : Add(Mul(al, X(i)), Y(i)))]
